@@ -442,7 +442,7 @@ def compare(driver, sc: dict, sched_seed: int):
             continue
         cm, ci = canon_model(got), canon_impl(want)
         if want.startswith("wfx:"):
-            ok = got.startswith("shape=true") and (want == "wfx:grouped" or (got.endswith("flat=true") and "push=true" in got))
+            ok = got.startswith("shape=true") and (want == "wfx:grouped" or (got.endswith("flat=true") and "push=true" in got and "pull=true" in got))
             if ok or nonuniform_cutoff(sc, True):
                 sc["_flat_hyp"] = got.endswith("flat=true")
                 continue
